@@ -407,7 +407,7 @@ func crashRecord(b builds, cfg tierCfg, c crashInfo) *proto.Record {
 	var recs []proto.RunRec
 	out := filepath.Join(scratch, "crashrecs.json")
 	if o, err := run(scratch, []string{"GOMAXPROCS=1"}, 2*time.Minute, b.plain, "records", "-seed", strconv.FormatUint(seed, 10), "-proc", strconv.Itoa(c.proc),
-		"-from", "0", "-runs", strconv.Itoa(c.run+1), "-corpus", filepath.Join(scratch, "corpus.json"),
+		"-clock="+strconv.FormatBool(usesClock(b)), "-from", "0", "-runs", strconv.Itoa(c.run+1), "-corpus", filepath.Join(scratch, "corpus.json"),
 		"-expected", filepath.Join(scratch, "expected.json"), "-maxstep", strconv.FormatInt(cfg.maxStep, 10), "-out", out); err != nil {
 		fatal("records: %v\n%s", err, o)
 	}
@@ -515,6 +515,9 @@ func runSims(b builds, cfg tierCfg, free bool) *simAgg {
 				if free {
 					args = append(args, "-free")
 					gmp = 8
+				}
+				if usesClock(b) {
+					args = append(args, "-clock")
 				}
 				po := runHarness(binFor(b, j.build), gmp, cfg.procWall, args...)
 				mu.Lock()
@@ -678,4 +681,8 @@ func doCheck(b builds, cfg tierCfg) int {
 		fmt.Printf("OK property=%s tier=%s seed=%d runs=%d wall=%.1fs\n", propID, cfg.name, seed, agg.runs, time.Since(tStart).Seconds())
 	}
 	return code
+}
+
+func usesClock(b builds) bool {
+	return b.rep.Rewrites["time.Now"]+b.rep.Rewrites["time.Since"]+b.rep.Rewrites["time.Until"] > 0
 }
